@@ -7,6 +7,7 @@ import (
 	"go/ast"
 	"go/token"
 	"go/types"
+	"sort"
 	"strings"
 )
 
@@ -26,6 +27,8 @@ func c19(c *Ctx) {
 	c19R7(c)
 	c19R8(c)
 	c19R9(c)
+	c19R10(c)
+	c19R11(c)
 	// shared: the trunk interface is created only into a free slot counted over all attached interfaces (C06.R6)
 	c06R6(c)
 }
@@ -1106,4 +1109,157 @@ func c19R9(c *Ctx) {
 		return true
 	})
 	c.Floor("C19.R9", "capacity terms in k8sAnno", 1, n)
+}
+
+// R10: the published capability is the looked-up limit, field for field. The NodeCap the node controller
+// writes into the node record is a copy of the Limits of the instance type: where Limits has a field of
+// the same name, that field (directly or through its one-line accessor) is the source. The daemon's
+// trunk switch and the member-ENI capacity read this record.
+func c19R10(c *Ctx) {
+	p := c.P
+	c.Rule("C19.R10", "controller/node createOrUpdate: every NodeCap field that Limits has under the same name is copied from that Limits field (directly or through an accessor that returns it)")
+	fn := p.Func("pkg/controller/node", "ReconcileNode.createOrUpdate")
+	limits := p.LookupObj(clientPkg, "Limits")
+	if fn == nil || limits == nil {
+		c.Unres("C19.R10", "ReconcileNode.createOrUpdate / client.Limits", "not found")
+		return
+	}
+	lst, _ := limits.Type().Underlying().(*types.Struct)
+	has := map[string]bool{}
+	for i := 0; lst != nil && i < lst.NumFields(); i++ {
+		has[lst.Field(i).Name()] = true
+	}
+	info := fn.Info()
+	isLimits := func(t types.Type) bool {
+		if ptr, ok := t.(*types.Pointer); ok {
+			t = ptr.Elem()
+		}
+		n, ok := t.(*types.Named)
+		return ok && n.Obj() == limits
+	}
+	// the Limits field an expression reads: limit.F, or limit.M() with M returning its receiver's F
+	srcField := func(x ast.Expr) string {
+		x = ast.Unparen(x)
+		if sel, ok := x.(*ast.SelectorExpr); ok && info.TypeOf(sel.X) != nil && isLimits(info.TypeOf(sel.X)) {
+			return sel.Sel.Name
+		}
+		if call, ok := x.(*ast.CallExpr); ok && len(call.Args) == 0 {
+			if sel, ok := ast.Unparen(call.Fun).(*ast.SelectorExpr); ok && info.TypeOf(sel.X) != nil && isLimits(info.TypeOf(sel.X)) {
+				if m := p.FuncOf(Callee(info, call)); m != nil && m.Decl.Body != nil && len(m.Decl.Body.List) == 1 {
+					if r, ok := m.Decl.Body.List[0].(*ast.ReturnStmt); ok && len(r.Results) == 1 {
+						if s2, ok := ast.Unparen(r.Results[0]).(*ast.SelectorExpr); ok {
+							return s2.Sel.Name
+						}
+					}
+				}
+				return "?" + sel.Sel.Name + "()"
+			}
+		}
+		return ""
+	}
+	n := 0
+	check := func(at ast.Node, field string, v ast.Expr) {
+		if !has[field] {
+			return
+		}
+		src := srcField(derefExpr(fn, v))
+		if src == "" {
+			return // not a copy from the limits (a constant, another source): not this rule's business
+		}
+		n++
+		c.Check(src == field, "C19.R10", "NodeCap."+field+" is the limit of the same name", p.Pos(at), fn.Key(), "NodeCap."+field+" ← Limits."+field, "← Limits."+src)
+	}
+	ast.Inspect(fn.Decl.Body, func(k ast.Node) bool {
+		switch t := k.(type) {
+		case *ast.CompositeLit:
+			if typeIs(info.TypeOf(t), modPath+"/"+apiPkg, "NodeCap") {
+				for _, el := range t.Elts {
+					if kv, ok := el.(*ast.KeyValueExpr); ok {
+						check(kv, exprString(kv.Key), kv.Value)
+					}
+				}
+			}
+		case *ast.AssignStmt:
+			for i, l := range t.Lhs {
+				if sel, ok := ast.Unparen(l).(*ast.SelectorExpr); ok && i < len(t.Rhs) {
+					if inner, ok := ast.Unparen(sel.X).(*ast.SelectorExpr); ok && inner.Sel.Name == "NodeCap" {
+						check(t, sel.Sel.Name, t.Rhs[i])
+					}
+				}
+			}
+		}
+		return true
+	})
+	c.Floor("C19.R10", "NodeCap fields copied from Limits", 5, n)
+}
+
+// R11: the two readers of the Lingjun quota answer agree. The daemon's limit provider and the node
+// controller both turn the GetNodeInfoForPod answer into (interfaces, addresses per interface); for
+// every target of the same name they read the same field of the answer.
+func c19R11(c *Ctx) {
+	p := c.P
+	c.Rule("C19.R11", "sibling agreement: EfloLimitProvider.GetLimit (daemon) and the node controller's Lingjun branch read the same field of the GetNodeInfoForPod answer for Adapters / TotalAdapters / IPv4PerAdapter")
+	a := p.Func(clientPkg, "EfloLimitProvider.GetLimit")
+	b := p.Func("pkg/controller/node", "ReconcileNode.handleEFLO")
+	if a == nil || b == nil {
+		c.Unres("C19.R11", "EfloLimitProvider.GetLimit / ReconcileNode.handleEFLO", "not found")
+		return
+	}
+	table := func(fn *FuncInfo) map[string]string {
+		info := fn.Info()
+		out := map[string]string{}
+		// the answer: the first result of GetNodeInfoForPod
+		var resp types.Object
+		ast.Inspect(fn.Decl.Body, func(k ast.Node) bool {
+			if as, ok := k.(*ast.AssignStmt); ok && len(as.Rhs) == 1 && len(as.Lhs) >= 1 {
+				if call, ok := ast.Unparen(as.Rhs[0]).(*ast.CallExpr); ok {
+					if f := Callee(info, call); f != nil && f.Name() == "GetNodeInfoForPod" {
+						resp = identObj(info, as.Lhs[0])
+					}
+				}
+			}
+			return true
+		})
+		if resp == nil {
+			return out
+		}
+		fromResp := func(x ast.Expr) string {
+			if sel, ok := ast.Unparen(derefExpr(fn, x)).(*ast.SelectorExpr); ok && identObj(info, sel.X) == resp {
+				return sel.Sel.Name
+			}
+			return ""
+		}
+		ast.Inspect(fn.Decl.Body, func(k ast.Node) bool {
+			switch t := k.(type) {
+			case *ast.KeyValueExpr:
+				if s := fromResp(t.Value); s != "" {
+					out[exprString(t.Key)] = s
+				}
+			case *ast.AssignStmt:
+				for i, l := range t.Lhs {
+					if sel, ok := ast.Unparen(l).(*ast.SelectorExpr); ok && i < len(t.Rhs) {
+						if s := fromResp(t.Rhs[i]); s != "" {
+							out[sel.Sel.Name] = s
+						}
+					}
+				}
+			}
+			return true
+		})
+		return out
+	}
+	ta, tb := table(a), table(b)
+	n := 0
+	var names []string
+	for k := range ta {
+		if _, ok := tb[k]; ok {
+			names = append(names, k)
+		}
+	}
+	sort.Strings(names)
+	for _, k := range names {
+		n++
+		c.Check(ta[k] == tb[k], "C19.R11", k+" is read from the same field of the answer on both sides", p.Pos(a.Decl), a.Key(), "daemon and controller agree", fmt.Sprintf("daemon: %s ← %s; controller: %s ← %s", k, ta[k], k, tb[k]))
+	}
+	c.Floor("C19.R11", "targets both sides fill from the answer", 2, n)
 }
